@@ -45,7 +45,9 @@ POOL = [["int"], ["str"], ["float"], ["decimal"], ["date"], ["datetime"], ["uuid
         ["dict", ["str"], ["dict", ["str"], ["int"]]], ["tuple", [["coll", "list", ["int"]], ["int"]]]]
 INPUTS = [None, 0, 5, True, ["f", "1.5"], "5", "abc", "1.5", "null", "2020-01-02", "2020-01-02T03:04:05+00:00", "g", "a", 1,
           "00000000-0000-0000-0000-000000000005", ["l", [1, 2]], ["l", ["1", "x"]], "[1, 2]", ["d", [["a", 1]]], '{"x": 1, "y": 2}',
-          ["d", [["a", ["l", [1, "2"]]]]], ["l", [["l", ["1"]], ["l", [2, 3]]]], ["d", [["k", ["d", [["a", "1"]]]]]], ["t", [["l", ["4"]], "5"]],
+          ["d", [["a", ["l", [1, "2"]]]]], ["l", [["l", ["1"]], ["l", [2, 3]]]],
+          # iterables whose FIRST element is a 2-element collection (what iteritems reads as pairs): to list[int] they are two lists / two texts
+          ["l", [["l", ["a", 1]], ["l", ["b", 2]]]], ["l", ["10", "20"]], ["l", [["t", ["a", "1"]]]], '[["a", 1], ["b", 2]]', ["d", [["k", ["d", [["a", "1"]]]]]], ["t", [["l", ["4"]], "5"]],
           ["d", [["x", "1"], ["y", 2]]], ["o", 1, [["x", 1], ["y", 2]]], ["m", 0, 0], ["dec", "2.5"], ["date", 737426],
           ["dt", 1577934245000006, 0], ["uuid", 7], ["b", "bytes", "7"], ["x", "opaque"], ["l", []], ["d", []], "", ["t", [1, 2]],
           # boundary numbers: members reject them with other exception classes (OverflowError, InvalidOperation, ...)
